@@ -38,7 +38,7 @@ def make_field(desc):
     L0 = L0 * k
     if mode == "const":
         return (lambda t, x: L0), (lambda t: np.zeros(3))
-    _, L1 = gen.velgrad(rng, None, unit=True)
+    _, L1 = gen.velgrad(rng, desc.get("kind2"), unit=True)   # second field (time/position dependence, second stage)
     L1 = L1 * k
     if mode == "timedep":
         a, b = 3.0 / T, 2.0 / T
